@@ -257,8 +257,8 @@ impl Property for C01 {
         match tier {
             Tier::Quick => prop_oneof![50 => small_u, 50 => small_i].boxed(),
             Tier::Thorough => {
-                let big_u = gen::addsub_pair_big(600).prop_map(|(a, b)| Case::new("addsub.u", vec![Arg::N(a), Arg::N(b)]));
-                let big_i = (any::<bool>(), any::<bool>(), gen::addsub_pair_big(600))
+                let big_u = gen::addsub_pair_big(5000).prop_map(|(a, b)| Case::new("addsub.u", vec![Arg::N(a), Arg::N(b)]));
+                let big_i = (any::<bool>(), any::<bool>(), gen::addsub_pair_big(5000))
                     .prop_map(|(sa, sb, (a, b))| Case::new("addsub.i", vec![Arg::Z(sa, a), Arg::Z(sb, b)]));
                 prop_oneof![45 => small_u, 45 => small_i, 5 => big_u, 5 => big_i].boxed()
             }
@@ -296,7 +296,7 @@ impl Property for C01 {
     fn assumptions(&self) -> Vec<String> {
         vec![
             "RefInt (u32-limb schoolbook arithmetic, cross-checked against CPython by tools/oracle_check.py) is correct".into(),
-            "operand lengths up to 40 digits (quick) / 600 digits (thorough)".into(),
+            "operand lengths up to 40 digits (quick) / 5000 digits (thorough)".into(),
         ]
     }
 }
